@@ -131,7 +131,7 @@ func (c *checker) runFail(f *failCase, stage *string) {
 			}
 		}
 		tbs := base.with(twoAt(c.al, f.lay.nbs, aki, f.lay.pos, f.pos2, a, b)).tbs()
-		crt := cert(tbs, signer)
+		crt := cert(tbs, signer, false)
 		*stage = "x509.ParseCertificate"
 		X, err := x509.ParseCertificate(crt)
 		if err != nil {
@@ -230,7 +230,7 @@ func (c *checker) wrongIssuer() {
 					c.r.Violation("issuer-replaced-outside-pre-issuer-case BuildPrecertTBS", fmt.Sprintf("a CA without CT EKU was used as pre-issuer: got %s want %s or an error", hx(got), hx(want)), desc)
 				}
 				// a chain whose second element is an ordinary CA is the direct case even if a pre-issuer follows
-				crt := cert(tbs, is.caKey)
+				crt := cert(tbs, is.caKey, false)
 				X, err := x509.ParseCertificate(crt)
 				if err != nil {
 					c.r.Violation("parse-error must-fail-template", err.Error(), desc)
@@ -245,7 +245,7 @@ func (c *checker) wrongIssuer() {
 				ptbs := base
 				ptbs.issuer = is.preName
 				pt := ptbs.with(append([][]byte{pki.ExtPoison().DER()}, exts...)).tbs()
-				pc := cert(pt, is.preKey)
+				pc := cert(pt, is.preKey, false)
 				PX, err := x509.ParseCertificate(pc)
 				if err != nil {
 					c.r.Violation("parse-error must-fail-template", err.Error(), desc)
@@ -287,7 +287,6 @@ func (c *checker) observations() {
 		{"non-minimal-length-in-extension", func(t *tmpl) { t.exts = append(t.exts, longLen) }},
 		{"negative-serial", func(t *tmpl) { t.serialRaw = []byte{0x02, 0x01, 0x80} }},
 		{"padded-serial", func(t *tmpl) { t.serialRaw = []byte{0x02, 0x02, 0x00, 0x01} }},
-		{"empty-issuerUniqueID", func(t *tmpl) { t.issuerUID = uniqueID(1, nil, 0) }},
 		{"sigalg-null-params-on-ecdsa", func(t *tmpl) { t.sigAlg = der.Seq(der.OID(1, 2, 840, 10045, 4, 3, 2), der.Null()) }},
 	}
 	for _, v := range vs {
